@@ -97,7 +97,23 @@ func registerHarnessIntrinsics() {
 		},
 		"verifDependsOn": hDependsOn,
 		"verifUF":        hUF,
-		"verifBytesSym":  hBytesSym,
+		"verifByteAt": func(e *Exec, a []Value, s *ssa.CallCommon) Value {
+			b := a[0].(*SliceV)
+			i := a[1].(*Term)
+			if b.arr == nil {
+				return e.tb.Const(8, 0)
+			}
+			off := e.concLen(b.off, "slice offset")
+			ts := e.windowBytes(b.arr, off)
+			if i.IsConst() {
+				if int(i.val) < len(ts) {
+					return ts[int(i.val)]
+				}
+				return e.tb.Const(8, 0)
+			}
+			return e.selectTree(i, ts)
+		},
+		"verifBytesSym": hBytesSym,
 		"verifDependsOnExact": func(e *Exec, a []Value, s *ssa.CallCommon) Value {
 			name := e.mustConcreteString(a[1], "variable name")
 			vars := map[string]bool{}
@@ -491,10 +507,94 @@ func hDependsOn(e *Exec, a []Value, s *ssa.CallCommon) Value {
 		}
 	}
 	sort.Strings(hit)
-	if len(hit) > 0 {
-		e.notes = append(e.notes, fmt.Sprintf("DEPENDS: value mentions %v", firstStrs(hit, 5)))
+	if len(hit) == 0 {
+		return e.tb.False()
 	}
-	return e.tb.Bool(len(hit) > 0)
+	if e.cfg.Concrete != nil {
+		return e.tb.False()
+	}
+	// the variables occur syntactically: decide semantically (2-safety): two runs that agree on
+	// everything but the variables with this prefix must yield the same value
+	pred := func(n string) bool { return strings.HasPrefix(n, prefix) }
+	var ts []*Term
+	e.valueTerms(a[0], &ts, map[interface{}]bool{})
+	memo := map[int]*Term{}
+	diff := e.tb.False()
+	for _, t := range ts {
+		diff = e.tb.Or(diff, e.tb.Ne(t, e.tb.Rename(t, pred, "'", memo)))
+	}
+	if diff.IsFalse() {
+		return e.tb.False()
+	}
+	as := []*Term{diff}
+	for _, p := range e.slicePC(diff) {
+		as = append(as, p, e.tb.Rename(p, pred, "'", memo))
+	}
+	r := e.sol.Prove(e.tb, as, nil, e.cfg.ProveTimeout)
+	switch r.Status {
+	case "unsat":
+		return e.tb.False()
+	case "sat":
+		e.notes = append(e.notes, fmt.Sprintf("DEPENDS: value depends on %v (2-safety query satisfiable)", firstStrs(hit, 5)))
+		return e.tb.True()
+	}
+	e.notes = append(e.notes, fmt.Sprintf("DEPENDS: undecided dependence on %v: %s", firstStrs(hit, 5), r.Note))
+	panic(pathAbort{"bound", "dependence query undecided"})
+}
+
+// valueTerms collects the scalar terms of a value in a fixed order.
+func (e *Exec) valueTerms(v Value, acc *[]*Term, seen map[interface{}]bool) {
+	switch x := v.(type) {
+	case *Term:
+		*acc = append(*acc, x)
+	case *StrV:
+		*acc = append(*acc, x.len)
+		if x.arr != nil && !seen[x.arr] {
+			seen[x.arr] = true
+			if rec, ok := e.strMeta[x.arr]; ok {
+				for _, a := range rec.args {
+					e.valueTerms(a, acc, seen)
+				}
+				return
+			}
+			for _, c := range x.arr.cells {
+				if t, ok := c.v.(*Term); ok {
+					*acc = append(*acc, t)
+				}
+			}
+		}
+	case *SliceV:
+		*acc = append(*acc, x.len)
+		if x.arr != nil && !seen[x.arr] {
+			seen[x.arr] = true
+			for _, c := range x.arr.cells {
+				e.valueTerms(e.loadCell(c), acc, seen)
+			}
+		}
+	case *IfaceV:
+		if x.v != nil {
+			e.valueTerms(x.v, acc, seen)
+		}
+	case *OpaqueV:
+		if rec, ok := x.data.(*fmtRecord); ok && !seen[rec] {
+			seen[rec] = true
+			for _, a := range rec.args {
+				e.valueTerms(a, acc, seen)
+			}
+		}
+	case *StructV:
+		for _, f := range x.F {
+			e.valueTerms(f, acc, seen)
+		}
+	case *ArrayV:
+		for _, f := range x.E {
+			e.valueTerms(f, acc, seen)
+		}
+	case *TupleV:
+		for _, f := range x.E {
+			e.valueTerms(f, acc, seen)
+		}
+	}
 }
 
 func firstStrs(s []string, n int) []string {
